@@ -42,10 +42,10 @@ def run(ctx):
     from rnapolis.parser_v2 import can_write_pdb, fit_to_pdb, parse_cif_atoms, parse_pdb_atoms, write_pdb
     rng = ctx.rng
     ctx.coverage["rule"] = ("generated mmCIF- and PDB-derived tables: within limits, multi-character chain ids, numbers above 9999, serials above 99999, insertion codes, "
-                            "more than 62 chains, one offending atom among fitting ones, an offending atom with another identifying item missing. Non-trivial = the table does not already fit; distinct by table text.")
+                            "more than 62 chains, one offending atom among fitting ones, an offending atom with another identifying item missing, a fitting table obtained by dropping the offending rows of a parsed one. Non-trivial = the table does not already fit; distinct by table text.")
     corr_expr, corr_exp, corr_case = [], [], []
     known = 0
-    kinds = ["fits", "longchain", "bignumber", "bigserial", "icode+longchain", "63chains", "pdb", "one-longchain", "one-bignumber", "one-bigserial", "offender-with-missing"]
+    kinds = ["fits", "longchain", "bignumber", "bigserial", "icode+longchain", "63chains", "pdb", "one-longchain", "one-bignumber", "one-bigserial", "offender-with-missing", "row-filtered"]
     n = 40 if ctx.quick else 300
     for t in range(n):
         kind = kinds[t % len(kinds)]
@@ -86,6 +86,14 @@ def run(ctx):
                     r2["chainID"] = f"C{c}"
                     r2["serial"] = len(table) + 1
                     table.append(r2)
+        if kind == "row-filtered":
+            # a residue that breaks all three limits is parsed with the rest and its rows are dropped afterwards (boolean indexing):
+            # what remains fits, whatever the dropped rows have left behind in the table's column metadata
+            first = (table[0]["chainID"], table[0]["resSeq"], table[0]["iCode"])
+            extra = [dict(r) for r in table if (r["chainID"], r["resSeq"], r["iCode"]) == first]
+            for k_, r in enumerate(extra):
+                r.update(chainID="ZZ", resSeq=12000, serial=100000 + k_)
+            table = (extra + table) if t % 2 else (table + extra)
         fmt = "PDB" if kind == "pdb" else "mmCIF"
         text = genatoms.emit_pdb(table) if fmt == "PDB" else genatoms.emit_cif(table)
         if kind == "offender-with-missing":
@@ -102,14 +110,20 @@ def run(ctx):
                 lines[i] = " ".join(f)
                 text = "\n".join(lines)
         df = parse_pdb_atoms(text) if fmt == "PDB" else parse_cif_atoms(text)
+        if kind == "row-filtered":
+            attrs = dict(df.attrs)
+            df = df[df["auth_asym_id"].astype(str) != "ZZ"]
+            df.attrs.update(attrs)
         before = canon_rows(df)
         says_fits = bool(can_write_pdb(df))
         # the property's own notion, from the canonical rows (a PDB-derived table fits by construction)
         fits = fmt == "PDB" or all((r[1] is None or r[1] <= 99999) and len(r[5]) <= 1 and (r[6] is None or r[6] <= 9999) for r in before)
         if says_fits != fits:
-            ctx.violation("can_write_pdb misjudges whether the table satisfies the PDB limits", {"case": {"kind": kind, "format": fmt, "table": text[:3000]}, "can_write_pdb": says_fits, "limits_satisfied": fits})
+            ctx.violation("can_write_pdb misjudges whether the table satisfies the PDB limits", {"case": {"kind": kind, "format": fmt, "table": text[:3000], "then": "rows of chain ZZ dropped after parsing" if kind == "row-filtered" else None}, "can_write_pdb": says_fits, "limits_satisfied": fits})
         ctx.count(text, not fits, kind)
         case = {"kind": kind, "format": fmt, "table": text if len(text) < 6000 else text[:6000] + "..."}
+        if kind == "row-filtered":
+            case["then"] = "df = df[df['auth_asym_id'].astype(str) != 'ZZ'] after parsing"
         try:
             out = fit_to_pdb(df)
             res = "unchanged" if out is df else canon_rows(out)
